@@ -1537,7 +1537,10 @@ func (p *partition) sendAck(ack *client.Ack) {
 	ack.CommitTimestamp = timestamp()
 	data, err := proto.MarshalAck(ack)
 	if err != nil {
-		panic(err)
+		// The ack carries strings taken from the wire (e.g. a NATS subject
+		// that is not valid UTF-8), so it may not be encodable.
+		p.srv.logger.Errorf("Error marshaling ack for partition %s: %v", p, err)
+		return
 	}
 	if err := p.srv.ncAcks.Publish(ack.AckInbox, data); err != nil {
 		p.srv.logger.Errorf("Error sending ack for partition %s: %v", p, err)
@@ -1566,7 +1569,10 @@ func (p *partition) sendTooLargeNack(msg *commitlog.Message) {
 	}
 	data, err := proto.MarshalAck(ack)
 	if err != nil {
-		panic(err)
+		// The ack carries strings taken from the wire (e.g. a NATS subject
+		// that is not valid UTF-8), so it may not be encodable.
+		p.srv.logger.Errorf("Error marshaling ack for partition %s: %v", p, err)
+		return
 	}
 	if err := p.srv.ncAcks.Publish(ack.AckInbox, data); err != nil {
 		p.srv.logger.Errorf("Error sending ack for partition %s: %v", p, err)
